@@ -47,6 +47,36 @@ class PkgRoot:
         open(os.path.join(d, "component.xml"), "w").write(xml)
         return self._note(name, "<sys.path entry>/%s/__init__.py" % name, "component.xml: " + xml)
 
+    def add_named_component(self, dotted, types=None, imports=(), module=False):
+        """a component package under a GIVEN dotted name (every component of the name any legal package name the import
+        system serves: mixed case, leading underscores, non-ASCII identifiers; sub-packages).  The directories of the
+        parents get an __init__.py (kept when already there) and nothing else; `types` None = no component.xml (a plain
+        package); module=True: the last component is a module file, not a package.  Files are written as UTF-8."""
+        parts = dotted.split(".")
+        d = self.root
+        for i, part in enumerate(parts):
+            if module and i == len(parts) - 1:
+                with open(os.path.join(d, part + ".py"), "w", encoding="utf-8") as f:
+                    f.write("# a module, not a package\n")
+                return self._note(dotted, "<sys.path entry>/%s.py" % "/".join(parts))
+            d = os.path.join(d, part)
+            os.makedirs(d, exist_ok=True)
+            init = os.path.join(d, "__init__.py")
+            if not os.path.exists(init):
+                with open(init, "w", encoding="utf-8") as f:
+                    f.write("# generated\n")
+        what = ["<sys.path entry>/%s/__init__.py" % "/".join(parts)]
+        if types is not None:
+            xml = F.render_xml(F.SchemaD([], types), toplevel="component")
+            if imports:
+                i = xml.index(">") + 2
+                xml = xml[:i] + "".join("  <import package='%s'/>\n" % q for q in imports) + xml[i:]
+            with open(os.path.join(d, "component.xml"), "w", encoding="utf-8") as f:
+                f.write(xml)
+            what.append("component.xml: " + xml)
+        self.refresh()
+        return self._note(dotted, *what)
+
     def add_plain_package(self):
         name = self.fresh_name("zcvnocomp")
         d = os.path.join(self.root, name)
